@@ -380,6 +380,7 @@ theorem cmdOk_step {hist : List Op} {s : St} (m1 : Mon) (o : Op)
 theorem clauses_none (m1 : Mon) (op : MOp) (ob : Obs) (hC : CmdOk m1 op ob)
     (g3 : monotoneFrom m1.cur.rank ob.pubs = true)
     (g4 : lastOr m1.cur ob.pubs = ob.st)
+    (g4b : ob.pubs = ob.upd)
     (g5 : m1.stopsTotal + ob.stops ≤ 1)
     (g11 : 3 ≤ ob.st.rank → allIn m1.n m1.reported = true)
     (g12 : 0 < m1.n → allIn m1.n m1.reported = true → 3 ≤ ob.st.rank)
@@ -391,7 +392,7 @@ theorem clauses_none (m1 : Mon) (op : MOp) (ob : Obs) (hC : CmdOk m1 op ob)
   rw [Option.map_eq_none_iff, List.find?_eq_none]
   intro x hx
   simp only [Mon.clauses, List.mem_cons, List.not_mem_nil, or_false] at hx
-  rcases hx with rfl | rfl | rfl | rfl | rfl | rfl | rfl | rfl | rfl | rfl | rfl | rfl | rfl | rfl | rfl | rfl | rfl | rfl
+  rcases hx with rfl | rfl | rfl | rfl | rfl | rfl | rfl | rfl | rfl | rfl | rfl | rfl | rfl | rfl | rfl | rfl | rfl | rfl | rfl
   · -- retire accepted in a wrong state
     cases h : retireAccepted op ob
     · simp
@@ -401,6 +402,7 @@ theorem clauses_none (m1 : Mon) (op : MOp) (ob : Obs) (hC : CmdOk m1 op ob)
     · simp [(ce h).1]
   · simp [g3]
   · simp [g4]
+  · simp [g4b]
   · simp; omega
   · cases h : exitAccepted op ob
     · have : ¬ 0 < ob.stops := fun hp => by rw [cs hp] at h; cases h
@@ -495,6 +497,7 @@ theorem check_step {hist : List Op} {s : St} {m : Mon} (o : Op) (hI : RInv hist 
       · simp [obsOf, hp, lastOr, he]
       · simp [obsOf, hp, lastOr]
       · simp [obsOf, hp, lastOr, he]
+    · rfl
     · rw [lt]; simp only [obsOf]; omega
     · intro h
       rw [allIn_iff, hn1]
@@ -582,7 +585,7 @@ theorem reset_ok (kinds : List Kind) (mode : StopMode) :
   have hk : (boot true kinds mode).1.kinds = kinds := exec_kinds true kinds [] mode
   have hm : (boot true kinds mode).1.stopMode = mode := exec_mode true kinds [] mode
   have hobs : obsOf (boot true kinds mode).1 (boot true kinds mode).2 =
-      { reply := none, pubs := [], stops := 0,
+      { reply := none, pubs := [], upd := [], stops := 0,
         sent := ((List.range kinds.length).filter (reachableAt kinds)).map (fun i => (i, SCmd.queryretire)),
         st := .working } := by
     have e1 : replyOf (tellAll .queryretire kinds) = none := by
@@ -608,6 +611,7 @@ theorem reset_ok (kinds : List Kind) (mode : StopMode) :
         simp at h
       · intro h; cases h
       · intro h; cases h
+    · rfl
     · rfl
     · rfl
     · simp [Mon.init]
